@@ -144,9 +144,22 @@ func TestC08Real(t *testing.T) {
 		}
 		blocked := failedAncestors(ts)
 		anyFail, nontrivial := false, false
+		failing := 0
+		for _, tk := range ts {
+			if tk.fails() && !tk.allowFail && !blocked[tk.name] {
+				failing++
+			}
+		}
 		for _, tk := range ts {
 			started := readyCount(ready+"."+tk.name) > 0
 			tv := v.Tasks[tk.name]
+			// fail-fast: once another task has failed, this one may have been told to stop while it ran (reported
+			// with status error but not as errored); which of several failures comes first is up to the clock
+			others := failing
+			if tk.fails() && !tk.allowFail && !blocked[tk.name] {
+				others--
+			}
+			stopped := !cont && others > 0 && tv.Status == "error" && !tv.Errored
 			if tk.parseErr {
 				started = tv.Status == "done" || tv.Status == "error" // no process ever starts; the report says whether the task was run
 			}
@@ -174,7 +187,7 @@ func TestC08Real(t *testing.T) {
 					}
 				}
 			}
-			if started && tv.Status == "done" || tv.Status == "error" {
+			if !stopped && (started && tv.Status == "done" || tv.Status == "error") {
 				if tk.exit != 0 && !tk.allowFail && (tv.Status != "error" || !tv.Errored || int(tv.ExitCode) != tk.exit) {
 					rt.Fatalf("[C08] %s: task %s exits with %d but is reported status=%s errored=%v exitCode=%d", desc, tk.name, tk.exit, tv.Status, tv.Errored, tv.ExitCode)
 				}
